@@ -7,7 +7,8 @@ ES_small == { <<"s">>, <<"mB", "m", "sOK">>, <<"p", "d", ".", "sOK">> }
 ES_two == { <<"s">>, <<"pB", "d", ".", "sOK">> }
 RS_big == RS_small \cup { <<"2", <<"s">> >>, <<"2", <<"m", "p", "dS", "dE", ".", "m", "sOK">> >>,
                           <<"2", <<"p", ".", "s">> >> }
-ES_big == ES_small \cup { <<"sB">>, <<"pB", "dM", "d", ".", "sOK">> }
+ES_big == ES_small \cup { <<"sB">>, <<"pB", "dM", "d", ".", "sOK">>, <<"p", "d0", "d", "d0", ".", "sOK">> }
+ES_empty == { <<"s">>, <<"p", "d0", ".", "sOK">>, <<"p", "d", "d0", ".", "sOK">> }
 RS_two == { <<"2", <<"m", "sOK">> >>, <<"5", <<"s">> >> }
 RS_three == { <<"2", <<"sOK">> >>, <<"2", <<"p", "d", ".", "s">> >>, <<"5", <<"m", "s">> >> }
 L0 == {}
